@@ -68,6 +68,10 @@ def big_structure(draw):
     rational = draw(st.integers(0, 3)) == 0
     wgt = st.builds(lambda nn, d: 1 + 9 * F(nn % d, d), big_ints(), big_ints())
     w = draw(st.lists(wgt, min_size=n, max_size=n)) if rational else None
+    if rational and draw(st.booleans()):
+        # Python-int weights (and int control points where integral): exact data all the same
+        w = draw(st.lists(st.integers(1, 9).map(F), min_size=n, max_size=n))
+        intpoints = True
     q = draw(st.integers(0, 2))
     V = [a] * (q + 1) + [b] * (q + 1)
     if draw(st.booleans()) and ts:
@@ -96,12 +100,16 @@ def small_structure(draw):
     dim = draw(st.sampled_from([0, 0, 2]))
     P = draw(gen.ctrlpoints(n, dim))
     w = draw(gen.pos_weights(n)) if draw(st.integers(0, 3)) == 0 else None
+    anum = "frac"
+    if w is not None and draw(st.booleans()):
+        w = draw(st.lists(st.integers(1, 9).map(F), min_size=n, max_size=n))  # Python-int weights
+        anum = "fracint"
     q = draw(st.integers(0, 2))
     V = [a] * (q + 1) + [b] * (q + 1)
     m = len(V) - q - 1
     Q = draw(gen.ctrlpoints(m, dim if draw(st.booleans()) else 0,
                             st.builds(lambda x, d: F(x, d), st.integers(1, 12), st.sampled_from([1, 2, 3]))))
-    return {"A": {"U": U, "p": p, "P": P, "w": w, "num": "frac"},
+    return {"A": {"U": U, "p": p, "P": P, "w": w, "num": anum},
             "B": {"U": V, "p": q, "P": Q, "w": None, "num": "frac"},
             "op": draw(st.sampled_from(OPS + ["smul", "smul", "lossy"])), "t": draw(st.sampled_from([F(1, 3), F(2, 5), F(1, 2)])),
             "profile": "small", "float_first": draw(st.booleans()), "order": draw(st.sampled_from(lib.SEQ_ORDERS))}
